@@ -183,14 +183,14 @@ func (wk *worker) dcUnit(block int) {
 		// value; each such request costs a second or a worker
 		sp := sweepSpec{Fields: true, Trunc: true}
 		if !wk.thorough {
-			sp = sweepSpec{FieldSample: 240, Trunc: len(b) <= 1024}
+			sp = sweepSpec{FieldSample: 120, Trunc: len(b) <= 1024}
 		} else if len(b) > 48 {
 			sp = sweepSpec{FieldSample: 1200, Trunc: len(b) <= 1024} // thorough: exhaustive for values up to 48 bytes
 		}
 		sweep(b, sp, r, func(in []byte, m mut) { wk.dcExec(codec, cs.Type, base, dests, in, m, own) })
 		flips := 64
 		if !wk.thorough {
-			flips = 24
+			flips = 16
 		}
 		sweep(b, sweepSpec{Flips: flips}, r, func(in []byte, m mut) { wk.dcExec(codec, cs.Type, base, dests, in, m, dcVersions) })
 		if j == 0 {
